@@ -1,7 +1,7 @@
 (* C01 — Two endpoints built on the library interoperate, even across transport loss.
    Statements only.  Nothing else may be added to this file. *)
 From MQ Require Import Base.Prelude Alloc.Alloc Alloc.AllocProofs Framing.Framing Framing.FramingProofs Conn.Types Conn.ConnRecord Conn.Step
-                       Corr.ConnTrace Conn.Scope Conn.Session Conn.IdsQuota Conn.Own Conn.OwnFrame Conn.OwnStep Conn.Run Conn.PairQos Conn.PairQos0 Conn.PairQos5 Conn.PairSeq Conn.PairSeq5 Conn.PairConc Conn.PairBi Conn.PairConc5 Conn.PairBi5 Conn.PairManual Conn.PairManual5 Conn.PairManualSeq Conn.PairManualSeq5 Conn.SessInv Conn.PairLoss Conn.PairLossAcc Conn.PairLossS.
+                       Corr.ConnTrace Conn.Scope Conn.Session Conn.IdsQuota Conn.Own Conn.OwnFrame Conn.OwnStep Conn.Run Conn.PairQos Conn.PairQos0 Conn.PairQos5 Conn.PairSeq Conn.PairSeq5 Conn.PairConc Conn.PairBi Conn.PairConc5 Conn.PairBi5 Conn.PairHandshake5 Conn.PairManual Conn.PairManual5 Conn.PairManualSeq Conn.PairManualSeq5 Conn.SessInv Conn.PairLoss Conn.PairLossAcc Conn.PairLossS.
 
 (* what the pair property rests on, each proved for ALL states of one endpoint:
    (i) delivery in any fragmentation is the same byte stream (C09) *)
@@ -215,6 +215,57 @@ Theorem C01_pair_two_way_invariant_after_handshake : forall gA gB a b,
   inv2 gA gB (mkBi a b [] [] [] [] [] []).
 Proof. exact inv2_init. Qed.
 Print Assumptions C01_pair_two_way_invariant_after_handshake.
+
+(* THE v5.0 HANDSHAKE ESTABLISHES THE PAIR INVARIANT (Conn/PairHandshake5.v), for EVERY negotiated Receive Maximum, Maximum
+   Packet Size, Session Expiry Interval, Server Keep Alive and keep-alive value (Clean Start, session not present, no
+   Topic Alias Maximum): client sends CONNECT, server receives it and sends a successful CONNACK, client receives it — no
+   call reports an error, each side's send limits are what the other announced, and the two-way invariant holds *)
+Theorem C01_pair_v5_handshake_establishes_invariant : forall gA gB A0 B0 cn ca,
+  OWN gA A0 -> OWN gB B0 -> c_version A0 = V50 -> c_version B0 = V50 -> c_status A0 = Disconnected -> c_status B0 = Disconnected ->
+  c_auto_pub A0 = true -> c_auto_pub B0 = true -> role_client_ok gA = true -> role_server_ok gB = true ->
+  (* the CONNECT: Clean Start, no Topic Alias Maximum; anything else *)
+  k_type cn = T_CONNECT -> k_ver cn = V50 -> k_flag cn = true -> k_tam cn = None -> size_ok A0 cn = true ->
+  (* the CONNACK: success, session not present, no Topic Alias Maximum, limits not zero; anything else *)
+  k_type ca = T_CONNACK -> k_ver ca = V50 -> k_rc ca = 0 -> k_flag ca = false -> k_tam ca = None -> k_rm ca <> Some 0 -> k_mps ca <> Some 0 ->
+  k_size ca <= limit_after (k_mps cn) (c_mps_send B0) ->
+  (* each side's acknowledgements fit what the other side accepts *)
+  2 + g_idw gA <= limit_after (k_mps ca) (c_mps_send A0) -> 2 + g_idw gB <= limit_after (k_mps cn) (c_mps_send B0) ->
+  exists A1 e1 B1 e2 B2 e3 A2 e4,
+    step gA A0 (OSend cn) = Ok (A1, e1, []) /\ sends e1 = [cn] /\ errors e1 = [] /\
+    deliver gB B0 cn = Ok (B1, e2) /\ notifies e2 = [cn] /\ errors e2 = [] /\ sends e2 = [] /\
+    step gB B1 (OSend ca) = Ok (B2, e3, []) /\ sends e3 = [ca] /\ errors e3 = [] /\
+    deliver gA A1 ca = Ok (A2, e4) /\ notifies e4 = [ca] /\ errors e4 = [] /\ sends e4 = [] /\
+    (* each side's limits are what the other announced *)
+    c_send_max A2 = k_rm ca /\ c_recv_max B2 = k_rm ca /\ c_send_max B2 = k_rm cn /\ c_recv_max A2 = k_rm cn /\
+    c_mps_send A2 = limit_after (k_mps ca) (c_mps_send A0) /\ c_mps_send B2 = limit_after (k_mps cn) (c_mps_send B0) /\
+    inv25 gA gB (mkBi A2 B2 [] [] [] [] [] []).
+Proof. exact handshake5_establishes_pair_invariant. Qed.
+Print Assumptions C01_pair_v5_handshake_establishes_invariant.
+
+(* END TO END: two freshly constructed v5.0 endpoints, ANY such handshake, then ANY schedule of publications by either
+   side and deliveries on either link *)
+Theorem C01_fresh_v5_endpoints_interoperate : forall gA gB cn ca l,
+  1 <= g_idmax gA -> 1 <= g_idmax gB -> role_client_ok gA = true -> role_server_ok gB = true ->
+  k_type cn = T_CONNECT -> k_ver cn = V50 -> k_flag cn = true -> k_tam cn = None -> k_size cn <= MQTT_PACKET_SIZE_NO_LIMIT ->
+  k_type ca = T_CONNACK -> k_ver ca = V50 -> k_rc ca = 0 -> k_flag ca = false -> k_tam ca = None -> k_rm ca <> Some 0 -> k_mps ca <> Some 0 ->
+  k_size ca <= limit_after (k_mps cn) MQTT_PACKET_SIZE_NO_LIMIT ->
+  2 + g_idw gA <= limit_after (k_mps ca) MQTT_PACKET_SIZE_NO_LIMIT -> 2 + g_idw gB <= limit_after (k_mps cn) MQTT_PACKET_SIZE_NO_LIMIT ->
+  Forall good_act25 l ->
+  let A0 := set_auto_pub (conn_new gA V50) true in
+  let B0 := set_auto_pub (conn_new gB V50) true in
+  exists A1 e1 B1 e2 B2 e3 A2 e4 s1 s2,
+    step gA A0 (OSend cn) = Ok (A1, e1, []) /\ sends e1 = [cn] /\
+    deliver gB B0 cn = Ok (B1, e2) /\ notifies e2 = [cn] /\
+    step gB B1 (OSend ca) = Ok (B2, e3, []) /\ sends e3 = [ca] /\
+    deliver gA A1 ca = Ok (A2, e4) /\ notifies e4 = [ca] /\
+    errors e1 = [] /\ errors e2 = [] /\ errors e3 = [] /\ errors e4 = [] /\
+    run_sched25 gA gB (mkBi A2 B2 [] [] [] [] [] []) l = Some s1 /\
+    run_sched25 gA gB s1 (drain2 (measure2 s1)) = Some s2 /\
+    qab s2 = [] /\ qba s2 = [] /\ delB s2 = pubA s1 /\ delA s2 = pubB s1 /\
+    vacancy (ea s2) = c_send_max (ea s2) /\ vacancy (eb s2) = c_send_max (eb s2) /\
+    c_publish_recv (ea s2) = [] /\ c_publish_recv (eb s2) = [].
+Proof. exact fresh_v5_endpoints_interoperate. Qed.
+Print Assumptions C01_fresh_v5_endpoints_interoperate.
 
 (* MANUAL RESPONSES (Conn/PairManual.v; auto_pub_response off, v3.1.1): the library requests nothing by itself; the
    applications send PUBACK / PUBREC / PUBREL / PUBCOMP through the ordinary send call.  From every admissible pair of
@@ -536,6 +587,19 @@ Proof.
   match type of HO with ?A -> _ => assert (HQ : A) by (vm_compute; repeat split; try reflexivity; try discriminate; intros; try discriminate) end.
   specialize (HO HQ). clear HQ. revert HO. vm_compute. intro HO. split; [exact HO|]. repeat split; try reflexivity; try discriminate.
 Qed.
+
+(* the premises of the end-to-end theorem are satisfiable: the handshake used in the examples above *)
+Example C01_fresh_v5_nonvacuous :
+  let gA := mkCfg RClient 65535 2 in
+  let gB := mkCfg RServer 65535 2 in
+  let cn := mkPkt 1 V50 0 0 false false [] None 0 0 24 false 0 true 0 None (Some 3) (Some 100) None None in
+  let ca := mkPkt 2 V50 0 0 false false [] None 0 0 11 true 0 false 0 None (Some 2) (Some 50) None None in
+  1 <= g_idmax gA /\ 1 <= g_idmax gB /\ role_client_ok gA = true /\ role_server_ok gB = true /\
+  k_type cn = T_CONNECT /\ k_ver cn = V50 /\ k_flag cn = true /\ k_tam cn = None /\ k_size cn <= MQTT_PACKET_SIZE_NO_LIMIT /\
+  k_type ca = T_CONNACK /\ k_ver ca = V50 /\ k_rc ca = 0 /\ k_flag ca = false /\ k_tam ca = None /\ k_rm ca <> Some 0 /\ k_mps ca <> Some 0 /\
+  k_size ca <= limit_after (k_mps cn) MQTT_PACKET_SIZE_NO_LIMIT /\
+  2 + g_idw gA <= limit_after (k_mps ca) MQTT_PACKET_SIZE_NO_LIMIT /\ 2 + g_idw gB <= limit_after (k_mps cn) MQTT_PACKET_SIZE_NO_LIMIT.
+Proof. vm_compute. repeat split; try reflexivity; try discriminate; try (intro H; discriminate H). Qed.
 
 Example C01_nonvacuous :
   let g := mkCfg RClient 65535 2 in
